@@ -101,6 +101,72 @@ def encode(doc, charset):
     return doc.encode("utf-8"), "application/xml"
 
 
+def debug_logging_level(ctx, decoy, port):
+    """the same bodies with `[logging] level = debug` and `request_content_on_debug = True`: what is written to the log is
+    client data too — nothing may be expanded there either, and logging must not cost unbounded time or memory"""
+    import logging
+    import radicale.log
+    rng = ctx.rng("debuglog")
+
+    class Tap(logging.Handler):
+        def __init__(self):
+            super().__init__(logging.DEBUG)
+            self.size = 0
+            self.counts = {}
+
+        def emit(self, record):
+            try:
+                msg = record.getMessage()
+            except Exception:
+                return
+            self.size += len(msg)
+            for tok in ("expanded", "lol", MARKER):
+                self.counts[tok] = self.counts.get(tok, 0) + msg.count(tok)
+    tap = Tap()
+    lg = radicale.log.logger
+    chosen = [a for a in attacks(rng, decoy, port, False) if a[0] in ("internal-text", "internal-attr", "nested-d4-k3", "nested-d8-k4", "nested-d10-k10",
+                                                                     "ext-general-file", "quadratic")]
+    try:
+        with App({"auth": {"type": "none"}, "rights": permissive_rights(),
+                  "logging": {"level": "debug", "request_content_on_debug": "True", "response_content_on_debug": "True"}}) as app:
+            scenarios.build_store(app, 0)
+            lg.addHandler(tap)
+            lg.setLevel(logging.DEBUG)
+            n = 0
+            for name, cls, doctype, ref_text, ref_attr in chosen:
+                for method in ("PROPFIND", "PROPPATCH", "REPORT", "MKCOL", "MKCALENDAR"):
+                    n += 1
+                    path = {"MKCOL": "/u/dx%d/" % n, "MKCALENDAR": "/u/dy%d/" % n}.get(method, "/u/cal/")
+                    doc = doctype + request_body(method, ref_text, ref_attr)
+                    body, ctype = encode(doc, "utf-8")
+                    tap.size, tap.counts = 0, {}
+                    rss0 = resource.getrusage(resource.RUSAGE_SELF).ru_maxrss
+                    t0 = time.time()
+                    st, hd, text = app.request(method, path, body, login="u:pw", CONTENT_TYPE=ctype, HTTP_DEPTH="1")
+                    dt = time.time() - t0
+                    rss1 = resource.getrusage(resource.RUSAGE_SELF).ru_maxrss
+                    case = {"attack": name, "method": method, "logging": "debug + request_content_on_debug", "status": st, "seconds": round(dt, 3),
+                            "log_characters": tap.size, "body_characters": len(doc)}
+                    ctx.case("debuglog:%s:%s" % (method, st), sample=case, key=["dbg", name, method], nontrivial=True)
+                    if st < 400:
+                        ctx.violation("a body declaring an entity was accepted (status %d) with debug logging on" % st, case)
+                    for tok in ("expanded", "lol"):
+                        if tap.counts.get(tok, 0) > 2 * doc.count(tok) + 2:
+                            ctx.violation("an entity was expanded into the log: %r occurs %d times in the log lines of the request, %d times in "
+                                          "the body" % (tok, tap.counts[tok], doc.count(tok)), case)
+                    if tap.counts.get(MARKER, 0):
+                        ctx.violation("content of the referenced file was written to the log", case)
+                    if tap.size > 20 * len(doc) + 20000:
+                        ctx.violation("a %d-character body produced %d characters of log" % (len(doc), tap.size), case)
+                    if dt > 3.0:
+                        ctx.violation("handling the body took %.1f s with debug logging on" % dt, case)
+                    if rss1 - rss0 > 200 * 1024:
+                        ctx.violation("handling the body grew the process by %d MB with debug logging on" % ((rss1 - rss0) // 1024), case)
+    finally:
+        lg.removeHandler(tap)
+        lg.setLevel(logging.CRITICAL)
+
+
 def run(ctx):
     ctx.extra["rule"] = ("attack grammar (9 entity shapes + nested expansion depth<=12 x fan-out<=10 + quadratic blow-up + 4 DOCTYPE-only shapes) x "
                          "{PROPFIND, PROPPATCH, REPORT, MKCOL, MKCALENDAR} x {utf-8, utf-16, latin-1, undeclared}; non-trivial = the body "
@@ -205,6 +271,8 @@ def run(ctx):
                             ctx.violation("content of the referenced file was stored in %s" % os.path.join(dp, f), {})
                     except OSError:
                         pass
+        ApplicationBase._read_xml_request_body = orig_read
+        debug_logging_level(ctx, decoy, port)
     finally:
         ApplicationBase._read_xml_request_body = orig_read
         rec.close()
